@@ -1,6 +1,7 @@
 use serde_json::Value;
 
 pub mod c01;
+pub mod captured;
 
 #[derive(Clone, Copy, PartialEq, Eq, Debug)]
 pub enum Tier {
